@@ -26,6 +26,7 @@ package main
 
 import (
 	"bufio"
+	"encoding/json"
 	"fmt"
 	"io"
 	"net"
@@ -123,7 +124,47 @@ type exposeEndpoint struct {
 	allow []string
 }
 
+// exposeFromConfig builds one server through the real configuration path: the description is rendered as the JSON
+// value of a --server flag (what a YAML file is turned into as well) and parsed by server.Servers.UnmarshalFlag.
+// An empty allow-list is written the way the shipped example does it: the "channels" key is left out.
+func exposeFromConfig(address string, allow []string, eps []exposeEndpoint) (server.Server, error) {
+	q := func(xs []string) string {
+		parts := make([]string, len(xs))
+		for i, x := range xs {
+			b, _ := json.Marshal(x)
+			parts[i] = string(b)
+		}
+		return "[" + strings.Join(parts, ",") + "]"
+	}
+	js := `[{"address":` + fmt.Sprintf("%q", address)
+	if len(allow) > 0 {
+		js += `,"channels":` + q(allow)
+	}
+	if eps != nil {
+		var es []string
+		for _, e := range eps {
+			b, _ := json.Marshal("/" + e.path)
+			item := `{"endpoint":` + string(b)
+			if len(e.allow) > 0 {
+				item += `,"channels":` + q(e.allow)
+			}
+			es = append(es, item+"}")
+		}
+		js += `,"endpoints":[` + strings.Join(es, ",") + "]"
+	}
+	js += "}]"
+	var ss server.Servers
+	if err := ss.UnmarshalFlag(js); err != nil {
+		return nil, err
+	}
+	if len(ss) != 1 {
+		return nil, fmt.Errorf("configuration gave %d servers", len(ss))
+	}
+	return ss[0], nil
+}
+
 type exposeServer struct {
+	cfg bool // build the server object through the real configuration parser
 	kind  string
 	allow []string         // socket / packet / stdio
 	eps   []exposeEndpoint // http
@@ -136,11 +177,13 @@ func parseExposeServers(s string) ([]exposeServer, bool) {
 		if len(kv) != 2 {
 			return nil, false
 		}
+		cfg := strings.HasPrefix(kv[0], "cfg!")
+		kv[0] = strings.TrimPrefix(kv[0], "cfg!")
 		switch kv[0] {
 		case "socket", "packet", "stdio":
-			out = append(out, exposeServer{kind: kv[0], allow: splitList(kv[1])})
+			out = append(out, exposeServer{kind: kv[0], allow: splitList(kv[1]), cfg: cfg})
 		case "http":
-			sv := exposeServer{kind: "http"}
+			sv := exposeServer{kind: "http", cfg: cfg}
 			for _, e := range strings.Split(kv[1], "|") {
 				pa := strings.SplitN(e, ":", 2)
 				if len(pa) != 2 {
@@ -179,6 +222,13 @@ func startExposeServer(sv exposeServer, all server.Channels) (st exposeStarted) 
 		s := server.NewSocketServer()
 		s.Address = addr.MustParseAddress("tcp://127.0.0.1:0")
 		s.Channels = sv.allow
+		if sv.cfg {
+			x, err := exposeFromConfig("tcp://127.0.0.1:0", sv.allow, nil)
+			if err != nil {
+				return exposeStarted{err: true}
+			}
+			s = x.(*server.SocketServer)
+		}
 		err := s.Startup(all)
 		st.err, st.listening = err != nil, server.VerifC03SocketListening(s)
 		if st.listening {
@@ -192,6 +242,13 @@ func startExposeServer(sv exposeServer, all server.Channels) (st exposeStarted) 
 		s := server.NewPacketServer()
 		s.Address = addr.MustParseAddress("udp://127.0.0.1:0")
 		s.Channels = sv.allow
+		if sv.cfg {
+			x, err := exposeFromConfig("udp://127.0.0.1:0", sv.allow, nil)
+			if err != nil {
+				return exposeStarted{err: true}
+			}
+			s = x.(*server.PacketServer)
+		}
 		err := s.Startup(all)
 		st.err, st.listening = err != nil, server.VerifC03PacketListening(s)
 		if st.listening {
@@ -236,6 +293,13 @@ func startExposeServer(sv exposeServer, all server.Channels) (st exposeStarted) 
 			s.Address = addr.MustParseAddress(fmt.Sprintf("http://127.0.0.1:%d", port))
 			for _, e := range sv.eps {
 				s.Endpoints = append(s.Endpoints, server.HttpEndpoint{Endpoint: "/" + e.path, Channels: e.allow})
+			}
+			if sv.cfg {
+				x, err := exposeFromConfig(fmt.Sprintf("http://127.0.0.1:%d", port), nil, sv.eps)
+				if err != nil {
+					return exposeStarted{err: true}
+				}
+				s = x.(*server.HttpServer)
 			}
 			err := s.Startup(all)
 			if err != nil && server.VerifC03HttpListening(s) {
@@ -530,6 +594,24 @@ func (c *exposeComp) Gen(r *Rand, tier string, emit func(op string)) {
 	// 1. one HTTP server, two websocket paths: every ordered pair of allow-lists (restricted before "all", "all"
 	//    before restricted, disjoint, overlapping, equal, one unknown name), request on each path and on a path
 	//    nobody registered
+	// servers built by the real configuration parser (--server JSON / YAML): several endpoints with allow-lists of
+	// different lengths, restricted before and after "all", several servers in one process
+	for _, srv := range []string{
+		"cfg!http=ws/a:ssh,web|ws/b:adm", "cfg!http=ws/a:adm|ws/b:ssh,web", "cfg!http=ws/a:ssh|ws/b:-", "cfg!http=ws/a:-|ws/b:ssh",
+		"cfg!http=ws/a:ssh,web,adm|ws/b:web|ws/c:-", "cfg!socket=ssh;cfg!socket=-", "cfg!socket=ssh,web;cfg!packet=adm", "cfg!http=ws/a:web|ws/b:ssh;cfg!socket=adm"} {
+		nsrv := len(strings.Split(srv, ";"))
+		for si := 0; si < nsrv; si++ {
+			vias := []string{fmt.Sprint(si)}
+			if strings.HasPrefix(strings.Split(srv, ";")[si], "cfg!http") {
+				vias = []string{fmt.Sprintf("%d:ws/a", si), fmt.Sprintf("%d:ws/b", si), fmt.Sprintf("%d:ws/c", si)}
+			}
+			for _, via := range vias {
+				for _, q := range []string{"ssh", "web", "adm", "nope"} {
+					emit("ssh,web,adm " + srv + " " + via + " " + q)
+				}
+			}
+		}
+	}
 	// the built-in SOCKS channel is a channel like any other for the allow-lists (and the one that reaches everything)
 	for _, a := range []string{"-", "ssh", "socks", "ssh,socks", "web"} {
 		for _, sv := range []string{"socket=" + a, "http=ws/a:" + a + "|ws/b:-", "packet=" + a} {
